@@ -94,6 +94,20 @@ Inductive call :=
 | CRecv (c : cid)
 | CRange (c : cid).
 
+(* the calls that take the write lock (a waiting Lock() remembers its call) *)
+Inductive lcall :=
+| LSub (o : oid)
+| LSubBuf (o : oid) (size : Z)
+| LUnsub (o : oid) (sub : cid)
+| LUnsubAll (o : oid).
+Definition call_of (l : lcall) : call :=
+  match l with
+  | LSub o => CSub o
+  | LSubBuf o size => CSubBuf o size
+  | LUnsub o sub => CUnsub o (Some sub)
+  | LUnsubAll o => CUnsubAll o
+  end.
+
 Inductive ret :=
 | RUnit
 | RChan (c : cid)
@@ -105,7 +119,7 @@ Inductive ret :=
 
 Inductive pc :=
 | PIdle
-| PLockWait (cl : call)         (* Lock() announced for this call; prog already advanced *)
+| PLockWait (l : lcall)         (* Lock() announced for this call; prog already advanced *)
 | PAdd (k : callid) (o : oid) (n : nat) (ps : list pair)
 | PLoop (k : callid) (o : oid) (ps : list pair)
 | PSyncCb (k : callid) (o : oid) (p : pair) (ps : list pair)
@@ -367,15 +381,15 @@ Definition step_pub_start (c : config) (t : tid) (th : thread) (rest : list call
   end.
 
 (* Lock() finds readers: announce and wait (only from PIdle: an announced caller is not announced twice) *)
-Definition announce (c : config) (t : tid) (th : thread) (rest : list call) (cl : call) (o : oid) (ob : psobj) : option config :=
+Definition announce (c : config) (t : tid) (th : thread) (rest : list call) (l : lcall) (o : oid) (ob : psobj) : option config :=
   match th_pc th with
   | PIdle => if can_announce ob
-             then Some (set_thread (set_obj c o (set_ww ob (Some t))) t (Thread rest (PLockWait cl) (th_rets th)))
+             then Some (set_thread (set_obj c o (set_ww ob (Some t))) t (Thread rest (PLockWait l) (th_rets th)))
              else None
   | _ => None
   end.
 
-Definition step_sub_start (c : config) (t : tid) (th : thread) (rest : list call) (cl : call) (o : oid) (size : Z) : option config :=
+Definition step_sub_start (c : config) (t : tid) (th : thread) (rest : list call) (l : lcall) (o : oid) (size : Z) : option config :=
   match nth_error (c_objs c) o with
   | None => None
   | Some ob =>
@@ -387,7 +401,7 @@ Definition step_sub_start (c : config) (t : tid) (th : thread) (rest : list call
                                        o (set_subs (set_wr ob (Some t)) (o_subs ob ++ [ci])))
                               t (Thread rest (PSubU o ci) (th_rets th)))
                   [ESub o ci])
-    else announce c t th rest cl o ob
+    else announce c t th rest l o ob
   end.
 
 Definition step_call (c : config) (t : tid) (th : thread) (cl : call) (rest : list call) : option config :=
@@ -406,9 +420,9 @@ Definition step_call (c : config) (t : tid) (th : thread) (cl : call) (rest : li
   | CSub o =>
       match nth_error (c_objs c) o with
       | None => None
-      | Some ob => step_sub_start c t th rest cl o (o_defbuf ob)
+      | Some ob => step_sub_start c t th rest (LSub o) o (o_defbuf ob)
       end
-  | CSubBuf o size => step_sub_start c t th rest cl o size
+  | CSubBuf o size => step_sub_start c t th rest (LSubBuf o size) o size
   | CUnsub o None =>
       Some (set_thread c t (Thread rest PIdle (th_rets th ++ [RErr ErrSubscriptionNotInitalized])))
   | CUnsub o (Some sub) =>
@@ -419,7 +433,7 @@ Definition step_call (c : config) (t : tid) (th : thread) (cl : call) (rest : li
           let idx := sub_index (o_subs ob) sub in
           let pc' := if (idx =? -1)%Z then PUnsubU o (RErr ErrAlreadyUnsubscribed) else PUnsubClose o (Z.to_nat idx) in
           Some (set_thread (set_obj c o (set_wr ob (Some t))) t (Thread rest pc' (th_rets th)))
-        else announce c t th rest cl o ob
+        else announce c t th rest (LUnsub o sub) o ob
       end
   | CUnsubAll o =>
       match nth_error (c_objs c) o with
@@ -427,7 +441,7 @@ Definition step_call (c : config) (t : tid) (th : thread) (cl : call) (rest : li
       | Some ob =>
         if lock_free t ob then
           Some (set_thread (set_obj c o (set_wr ob (Some t))) t (Thread rest (PUnsubAllLoop o (o_subs ob)) (th_rets th)))
-        else announce c t th rest cl o ob
+        else announce c t th rest (LUnsubAll o) o ob
       end
   | CRecv ci => step_recv c t th ci
   | CRange ci => step_recv c t th ci
@@ -442,20 +456,15 @@ Definition close_chan (c : config) (t : tid) (o : oid) (ci : cid) : option confi
     else Some (log (set_chans c (upd ci (Chan (ch_buf chn) (ch_cap chn) true) (c_chans c))) [EClose t o ci])
   end.
 
-Definition step (c : config) (t : tid) (ch : choice) : option config :=
-  match c_panic c with
-  | Some _ => None
-  | None =>
-  match nth_error (c_threads c) t with
-  | None => None
-  | Some th =>
+(* one step of thread t, whose state is th *)
+Definition step_thread (c : config) (t : tid) (th : thread) (ch : choice) : option config :=
     match th_pc th with
     | PIdle =>
         match th_prog th with
         | [] => None
         | cl :: rest => step_call c t th cl rest
         end
-    | PLockWait cl => step_call c t th cl (th_prog th)
+    | PLockWait l => step_call c t th (call_of l) (th_prog th)
     | PAdd k o n ps =>
         Some (set_thread (set_wg c (wg_set (c_wg c) (k_tid k) (k_n k) (c_wg c (k_tid k) (k_n k) + n)))
                          t (with_pc th (PLoop k o ps)))
@@ -548,8 +557,17 @@ Definition step (c : config) (t : tid) (ch : choice) : option config :=
         | Some ob => Some (set_thread (set_obj c o (set_wr (set_subs ob []) None)) t (returns th RNil))
         end
     | PRange ci acc => step_recv c t th ci
+    end.
+
+(* a panicked process is dead; otherwise thread t (if it exists) moves *)
+Definition step (c : config) (t : tid) (ch : choice) : option config :=
+  match c_panic c with
+  | Some _ => None
+  | None =>
+    match nth_error (c_threads c) t with
+    | None => None
+    | Some th => step_thread c t th ch
     end
-  end
   end.
 
 (* A schedule is a list of (thread, choice); disabled entries are skipped. *)
